@@ -606,3 +606,162 @@ Example ex_nest :
   let qr := [[Leaf 1%Z; Node [Leaf 2%Z; Node [Leaf 3%Z]]]; []; [Node []; Leaf 4%Z]] in
   level2 qr = R2 [[1;2;3];[];[4]]%Z /\ level1 qr = R1 [1;2;3;4]%Z /\ level0 qr = R0 (Some 1%Z).
 Proof. vm_compute. repeat split. Qed.
+
+(* ---- a pragma line really sets the level ------------------------------------- *)
+Definition is_digit (c : byte) : bool := (48 <=? c) && (c <=? 57).
+
+Lemma uint_bytes_digits u : forallb is_digit (uint_bytes u) = true.
+Proof. induction u; cbn [uint_bytes forallb]; try reflexivity; rewrite IHu; reflexivity. Qed.
+
+Lemma uint_of_bytes_uint_bytes u : uint_of_bytes (uint_bytes u) = Some u.
+Proof. induction u; cbn [uint_bytes uint_of_bytes]; try reflexivity; rewrite IHu; reflexivity. Qed.
+
+Lemma unorm_to_uint k : Decimal.unorm (N.to_uint k) = N.to_uint k.
+Proof.
+  rewrite <- (DecimalN.Unsigned.to_of (N.to_uint k)), DecimalN.Unsigned.of_to. reflexivity.
+Qed.
+
+Lemma literal_eval_dec k : literal_eval_uint (dec_bytes k) = Some k.
+Proof.
+  unfold literal_eval_uint, dec_bytes. rewrite uint_of_bytes_uint_bytes, unorm_to_uint, bytes_eqb_refl.
+  rewrite DecimalN.Unsigned.of_to. reflexivity.
+Qed.
+
+Lemma digits_memb c l : forallb is_digit l = true -> is_digit c = false -> memb c l = false.
+Proof.
+  intros Hl Hc. induction l as [|a l IH]; [reflexivity|].
+  cbn [forallb] in Hl. apply andb_true_iff in Hl as [Ha Hl]. unfold memb. cbn [existsb].
+  destruct (N.eqb_spec c a) as [->|_]; [congruence|]. apply IH. exact Hl.
+Qed.
+
+Lemma lstrip_nonspace l : match l with c :: _ => is_space c = false | [] => True end -> lstrip l = l.
+Proof. destruct l as [|c t]; cbn [lstrip]; [reflexivity|]. intros ->. reflexivity. Qed.
+
+Lemma digit_not_space c : is_digit c = true -> is_space c = false.
+Proof. unfold is_digit, is_space. lia. Qed.
+Lemma digit_not_linebreak c : is_digit c = true -> is_linebreak c = false.
+Proof. unfold is_digit, is_linebreak. lia. Qed.
+
+Lemma strip_digits l : forallb is_digit l = true -> strip l = l.
+Proof.
+  intros H. unfold strip, rstrip.
+  assert (L : forall l, forallb is_digit l = true -> lstrip l = l).
+  { intros l0 H0. apply lstrip_nonspace. destruct l0 as [|c t]; [exact I|].
+    cbn [forallb] in H0. apply andb_true_iff in H0 as [H0 _]. apply digit_not_space. exact H0. }
+  rewrite (L l H). rewrite L; [apply rev_involutive|].
+  rewrite forallb_forall in *. intros x Hx. apply H. apply in_rev. exact Hx.
+Qed.
+
+Lemma split_aux_nosep sep l : forall cur,
+  memb sep l = false -> split_aux sep cur l = [rev cur ++ l].
+Proof.
+  induction l as [|a l IH]; intros cur H; cbn [split_aux].
+  - rewrite app_nil_r. reflexivity.
+  - apply memb_false_cons in H as [Hne H]. destruct (N.eqb_spec a sep) as [E|_]; [congruence|].
+    rewrite IH by exact H. cbn [rev]. rewrite <- app_assoc. reflexivity.
+Qed.
+
+Lemma split_aux_sep sep a b : forall cur,
+  memb sep a = false -> split_aux sep cur (a ++ sep :: b) = (rev cur ++ a) :: split_aux sep [] b.
+Proof.
+  induction a as [|x a IH]; intros cur H; cbn [app split_aux].
+  - rewrite N.eqb_refl, app_nil_r. reflexivity.
+  - apply memb_false_cons in H as [Hne H]. destruct (N.eqb_spec x sep) as [E|_]; [congruence|].
+    rewrite IH by exact H. cbn [rev]. rewrite <- app_assoc. reflexivity.
+Qed.
+
+Lemma splitlines_aux_line l body : forall cur,
+  forallb (fun c => negb (is_linebreak c)) l = true ->
+  splitlines_aux cur false (l ++ c_nl :: body) = (rev cur ++ l) :: splitlines_aux [] false body.
+Proof.
+  induction l as [|a l IH]; intros cur H; cbn [app splitlines_aux].
+  - cbn [andb]. rewrite app_nil_r. reflexivity.
+  - cbn [forallb] in H. apply andb_true_iff in H as [Ha H]. apply negb_true_iff in Ha.
+    cbn [andb]. rewrite Ha. rewrite IH by exact H. cbn [rev]. rewrite <- app_assoc. reflexivity.
+Qed.
+
+(* the pragma line  #$ data_values_nest_level = <k>  (k any natural number in
+   decimal) followed by a body whose first line is not a pragma line *)
+Definition pragma_line (k : N) : list byte :=
+  [c_hash; c_dollar; 32] ++ key_nest_level ++ [32; c_eq; 32] ++ dec_bytes k.
+
+Theorem pragma_line_sets_level : forall k body,
+  match splitlines body with [] => True | line :: _ => starts_with_hash_dollar line = false end ->
+  process_pragma (pragma_line k ++ c_nl :: body) = Ok (PLevel (Z.of_N k)).
+Proof.
+  intros k body Hbody. unfold process_pragma, splitlines.
+  assert (Hd := uint_bytes_digits (N.to_uint k)). fold (dec_bytes k) in Hd.
+  rewrite splitlines_aux_line.
+  2:{ unfold pragma_line. rewrite !forallb_app. rewrite !andb_true_iff. repeat split; try reflexivity.
+      rewrite forallb_forall in *. intros c Hc. apply negb_true_iff, digit_not_linebreak, Hd, Hc. }
+  cbn [rev app pragma_lines].
+  assert (Hstart : starts_with_hash_dollar (pragma_line k) = true) by reflexivity.
+  rewrite Hstart.
+  assert (Hskip : skipn 3 (pragma_line k) = key_nest_level ++ [32; c_eq; 32] ++ dec_bytes k) by reflexivity.
+  rewrite Hskip. unfold split at 1.
+  rewrite split_aux_nosep.
+  2:{ unfold memb. rewrite !existsb_app. rewrite !orb_false_iff. repeat split; try reflexivity.
+      apply digits_memb; [exact Hd|reflexivity]. }
+  cbn [rev app pragma_assignments].
+  change (key_nest_level ++ 32 :: c_eq :: 32 :: dec_bytes k)
+    with ((key_nest_level ++ [32]) ++ c_eq :: (32 :: dec_bytes k)).
+  unfold split. rewrite split_aux_sep by reflexivity.
+  rewrite split_aux_nosep.
+  2:{ apply digits_memb with (c := c_eq) in Hd; [|reflexivity].
+      unfold memb in *. cbn [existsb]. rewrite Hd. reflexivity. }
+  cbn [rev app].
+  assert (Hk : strip (key_nest_level ++ [32]) = key_nest_level) by reflexivity.
+  rewrite Hk, bytes_eqb_refl.
+  assert (Hv : strip (32 :: dec_bytes k) = dec_bytes k).
+  { unfold strip. cbn [lstrip]. change (is_space 32) with true. cbv iota.
+    apply strip_digits. exact Hd. }
+  rewrite Hv, literal_eval_dec. cbn [pragma_assignments].
+  fold (splitlines body). destruct (splitlines body) as [|line r]; cbn [pragma_lines]; [reflexivity|].
+  rewrite Hbody. reflexivity.
+Qed.
+
+(* a text without $ outside an embedded expression is left alone *)
+Lemma scan_no_dollar s : forall st q idx m,
+  st <> SEmbed -> memb c_dollar s = false -> scan st q idx m s = (s, m).
+Proof.
+  induction s as [|a t IH]; intros st q idx m Hst H; [reflexivity|].
+  apply memb_false_cons in H as [Hne H].
+  assert (E : (a =? c_dollar) = false) by (apply N.eqb_neq; congruence).
+  rewrite scan_cons, E. cbn [andb].
+  destruct st; try contradiction; cbn [state_is_quote is_idle is_comment andb];
+    unfold quote_state;
+    repeat match goal with |- context [if ?b then _ else _] => destruct b end;
+    rewrite IH by (assumption || discriminate); reflexivity.
+Qed.
+
+(* with the constructor argument the argument wins, without it the pragma line
+   does (the body here is any text without $, e.g. plain Python) *)
+Theorem pragma_line_vs_argument : forall k body arg,
+  memb c_dollar body = false ->
+  match splitlines body with [] => True | line :: _ => starts_with_hash_dollar line = false end ->
+  effective_level arg (pragma_line k ++ c_nl :: body) =
+    Ok (PLevel (match arg with Some a => a | None => Z.of_N k end)).
+Proof.
+  intros k body arg Hnd Hbody. apply pragma_precedence.
+  assert (Hd := uint_bytes_digits (N.to_uint k)). fold (dec_bytes k) in Hd.
+  assert (Hcode : fst (process_embedded_query_expr (pragma_line k ++ c_nl :: body)) =
+                  pragma_line k ++ c_nl :: body).
+  { assert (Hsrc : pragma_line k ++ c_nl :: body =
+                   c_hash :: ((c_dollar :: 32 :: key_nest_level ++ [32; c_eq; 32]) ++ dec_bytes k)
+                          ++ c_nl :: body).
+    { unfold pragma_line. cbn [app]. rewrite <- !app_assoc. cbn [app]. reflexivity. }
+    rewrite Hsrc. unfold process_embedded_query_expr. rewrite scan_open_comment.
+    rewrite scan_inert_run; [|unfold inert; auto|].
+    2:{ unfold memb. rewrite existsb_app, orb_false_iff. split; [reflexivity|].
+        apply digits_memb; [exact Hd|reflexivity]. }
+    rewrite scan_close_comment, scan_no_dollar by (discriminate || assumption).
+    reflexivity. }
+  rewrite Hcode. apply pragma_line_sets_level. exact Hbody.
+Qed.
+
+Example pragma_line_vs_argument_ex :
+  (memb c_dollar [120; 61; 49; 10] = false) /\
+  (match splitlines [120; 61; 49; 10] with [] => True | line :: _ => starts_with_hash_dollar line = false end) /\
+  (effective_level None (pragma_line 2 ++ c_nl :: [120; 61; 49; 10]) = Ok (PLevel 2)) /\
+  (effective_level (Some 0%Z) (pragma_line 2 ++ c_nl :: [120; 61; 49; 10]) = Ok (PLevel 0)).
+Proof. vm_compute. repeat split. Qed.
